@@ -1,5 +1,5 @@
 """Per-property configuration of bin/check."""
-from cli_checks import c13_step, c14_step, c17_step
+from cli_checks import c13_step, c14_step, c17_step, c19_step
 
 TRUSTED_BASE = [
     "Lean 4.33.0 kernel (thorough tier: re-checked by leanchecker)",
@@ -44,7 +44,7 @@ PROPS = {
         "assumptions": ["progress is decided per program on the implementation (search) and by the stuck-term classification theorem on the model; subject reduction is not proved"],
     },
     "C05": {"suites": ["programs", "unify", "pipeline"], "assumptions": ["completeness of the checker is decided per generated program (type-directed generator with its own expected type), not proved"]},
-    "C12": {"suites": ["unify", "debruijn"], "assumptions": ["soundness of unification w.r.t. conversion needs confluence and is not proved; the solutions are validated per run on the implementation"]},
+    "C12": {"suites": ["unify", "debruijn"], "assumptions": ["soundness of unification w.r.t. the declarative conversion is proved for the model when no hole is copied and every hole sits at least as deep as its shift (C12_unify_sound_fixed); outside these hypotheses it is false of the code (recorded findings) and the solutions are validated per run on the implementation"]},
     "C18": {"suites": ["unify", "programs", "pipeline"], "assumptions": ["agreement with the closed program (wrapping a context into binders) is not proved; restoration is proved for the model and observed on the implementation for every call"]},
     "C13": {"suites": [], "extra": [c13_step],
             "rule": "launches of the real binary (fresh process, fresh hash seed) on corpus files and generated multi-diagnostic files; distinct = (file, mode) pairs",
@@ -54,12 +54,12 @@ PROPS = {
     "C17": {"suites": ["parser"], "extra": [c17_step],
             "assumptions": ["a theorem bounds model bookkeeping, not wall-clock time; time is measured on the real code (release build) for 16 input families",
                             "the per-nonterminal cache hit/miss counters of the implementation (hook H1) are compared with the model's on every `parsestats` op"]},
-    "C03": {"suites": ["pipeline", "programs", "unify"], "assumptions": ["every program the real checker accepts is re-checked by the independent Lean checker inferX on its zonked elaboration (translation validation per program); soundness of inferX w.r.t. declarative rules is pending", "an unresolved hole is an unknown compatible with anything"]},
+    "C03": {"suites": ["pipeline", "programs", "unify"], "assumptions": ["every program the real checker accepts is re-checked by the independent Lean checker inferX on its zonked elaboration (translation validation per program); inferX is proved sound for the declarative rules of Typing.lean on hole-free terms, and the model of gram's checker is proved sound for them on hole-free programs (C03_checker_sound_holefree)", "an unresolved hole is an unknown compatible with anything"]},
     "C04": {"suites": ["programs", "pipeline", "unify"], "assumptions": ["the value of every terminating accepted program is typed by the independent checker and compared with the reported type; preservation is not proved"]},
     "C06": {"suites": ["programs", "unify", "pipeline"], "assumptions": ["coincidence of conversion with equality of normal forms and closure under reduction need confluence and are not proved; they are decided per program on the implementation"]},
-    "C15": {"suites": ["listing", "parser"], "assumptions": ["Unicode whitespace classification is a parameter of the model, supplied per input", "ranges of scoping/type diagnostics are compared through hook H3 (ranges passed to listing) in the parser suite"]},
+    "C15": {"suites": ["listing", "parser", "programs"], "assumptions": ["for type faults the range convention is pinned by experiment per kind of subexpression (programs suite: one generated subexpression of a wrong type at a position whose expected type is known; its byte span in the rendered text is compared with the ranges passed to `listing`, hook H3)", "Unicode whitespace classification is a parameter of the model, supplied per input", "ranges of scoping/type diagnostics are compared through hook H3 (ranges passed to listing) in the parser suite"]},
     "C16": {"suites": ["print", "programs"], "assumptions": ["the printed text is re-read by the real tokenizer and parser (oracle on the implementation); the proof that the printed token list derives the term in grammar.y is pending"]},
-    "C19": {"suites": ["programs", "pipeline"], "assumptions": ["acceptance-invariance of the rewrites is not proved (needs the T3 statements of C06/C12); it is searched: every rewrite kind at random sites of every generated program, outcome compared through the real pipeline"]},
+    "C19": {"suites": ["programs", "pipeline"], "extra": [c19_step], "assumptions": ["acceptance-invariance of the rewrites is not proved (needs the T3 statements of C06/C12); it is searched: every rewrite kind at random sites of every generated program, outcome compared through the real pipeline"]},
     "C07": {"suites": ["parser", "programs"], "assumptions": ["completeness of the parser w.r.t. grammar.y and unambiguity of the grammar are not proved; watched by enumeration (Earley recogniser over the grammar file, every token sequence up to a length bound, every generated sentence)"]},
     "C08": {"suites": ["parser", "programs"], "assumptions": ["the specification toDB (binder stack) is part of the trusted statements; the reference resolver in the harness (resolve_ref.rs) is an independent third implementation"]},
 }
